@@ -11,6 +11,6 @@ def run(tier, seed, update_ledger=False, only=None, jobs=None):
     return run_check("C13", hs, tier=tier, seed=seed, update_ledger=update_ledger, jobs=jobs,
                      unbounded_in=["all values; arguments that are views (ownership is tracked per base storage)"],
                      bounded_in={"shapes": "as in the per-class contracts"},
-                     not_decided=["sampling methods of distributions / flows are exercised by C04 / C18 (their frames are not restated here)", "training-mode statistics updates are the subject of C14"],
+                     not_decided=["sampling frames are claimed for sample(1, context) and sample(2, context) of the flow / distribution harnesses only", "training-mode statistics updates are the subject of C14"],
                      assumptions=["frame condition from the write log of the symbolic execution: every in-place op records the owner of the written storage (argument / parameter / buffer / fresh)",
                                   "user-supplied conditioners return fresh tensors (the in-place '/= sqrt(hidden_features)' on a view of the conditioner output relies on it)"])
